@@ -1,6 +1,6 @@
 #!/bin/bash
 # usage: tools_confirm_seed.sh <seeddir>...  -- confirm a seeded change in a scratch worktree:
-# builds, existing root-package tests pass, demonstration fails with the change and passes without it.
+# builds, existing tests of the package concerned pass, demonstration fails with the change and passes without it.
 export GOFLAGS=-mod=mod GOPROXY=off GOSUMDB=off GOTOOLCHAIN=local
 for d0 in "$@"; do
   d=$(readlink -f "$d0")
@@ -8,17 +8,25 @@ for d0 in "$@"; do
   wt=/tmp/confirm_$name
   rm -rf $wt; git -C /repo worktree add -q --detach $wt HEAD || continue
   demo=$(ls $d/*_test.go | head -1)
-  res="{}"
-  ( cd $wt
+  pkg=$(grep -m1 '^package ' $demo | awk '{print $2}')
+  dir=$(python3 -c "import json,sys; print(json.load(open('$d/meta.json')).get('demo_dir',''))" 2>/dev/null)
+  if [ -z "$dir" ]; then
+    if [ "$pkg" = autodiff ]; then dir=.; else dir=$(cd $wt && find . -type d -name "$pkg" | head -1); fi
+  fi
+  ( cd $wt/$dir
     cp $demo ./zz_seed_demo_test.go
     run=$(grep -o "func Test[A-Za-z0-9_]*" zz_seed_demo_test.go | sed 's/func //' | paste -sd'|')
     base=$(go test -vet=off -count=1 -run "^($run)\$" . 2>&1 | tail -1)
-    git apply $d/patch.diff
-    build=$(go build ./... 2>&1 | tail -1)
+    (cd $wt && git apply $d/patch.diff)
+    build=$(cd $wt && go build ./... 2>&1 | tail -1)
     with=$(go test -vet=off -count=1 -run "^($run)\$" . 2>&1 | grep -E "^(ok|FAIL|---)" | tail -1)
     rm zz_seed_demo_test.go
     suite=$(go test -vet=off -count=1 . 2>&1 | tail -1)
-    echo "$name | demo without change: $base | build: ${build:-ok} | demo with change: $with | existing root suite with change: $suite"
+    extra=""
+    if [ "$dir" != . ] && (cd $wt && git diff --name-only | grep -qv /); then
+      extra=" | root suite with change: $(cd $wt && go test -vet=off -count=1 . 2>&1 | tail -1)"
+    fi
+    echo "$name | demo dir: $dir | demo without change: $base | build: ${build:-ok} | demo with change: $with | existing suite of $dir with change: $suite$extra"
   ) | tee $d/confirmed.txt
   git -C /repo worktree remove --force $wt
 done
